@@ -59,7 +59,7 @@ def step (w : W) (toks : List String) : W × String :=
   | "m.period" :: "nilminter" :: [] =>
     ({ w with raw := { w.raw with minters := w.raw.minters ++ [{ isNil := true, seq := 0, endT := none, cfg := .nilCfg }] } }, ".")
   | "m.period" :: seq :: e :: rest =>
-    match nat? seq, optInt? e, parseCfg rest with
+    match nat? seq, (if e = "zero" then some (some (-62135596800000000000 : Int)) else optInt? e), parseCfg rest with
     | some seq, some e, some c =>
       ({ w with raw := { w.raw with minters := w.raw.minters ++ [{ seq := seq, endT := e, cfg := c }] } }, ".")
     | _, _, _ => (w, "bad-op")
